@@ -27,7 +27,7 @@ ASSUMPTIONS = ["initial values inside the bounds", "nested cases use no variable
 REQUIRED = {"quick": {"evaluator_rows_checked": 20000, "fixed_entries_checked": 30000, "gradient_fixed_entries_checked": 2000, "result_vectors_checked": 5000, "algorithm_vectors_checked": 3000, "nested_handoffs": 150, "nested_rows_after_handoff": 1000, "explicit_start_vector": 100, "gradients_with_all_realizations_failed": 25, "step_reruns_without_the_nested_plan": 40, "with_relative_perturbations": 50, "requests_in_another_number_type": 80, "step_reruns_with_the_mask_replaced_in_the_same_dictionary": 40, "__nontrivial__": 300},
             "thorough": {"evaluator_rows_checked": 315045, "fixed_entries_checked": 523595, "gradient_fixed_entries_checked": 60000, "result_vectors_checked": 150000, "algorithm_vectors_checked": 100000, "nested_handoffs": 5000, "nested_rows_after_handoff": 28068, "explicit_start_vector": 903, "gradients_with_all_realizations_failed": 400, "step_reruns_without_the_nested_plan": 800, "with_relative_perturbations": 400, "requests_in_another_number_type": 800, "step_reruns_with_the_mask_replaced_in_the_same_dictionary": 400, "__nontrivial__": 4000}}
 BOUNDS = {"quick": {"Vmax": 4}, "thorough": {"Vmax": 5}}
-METHODS = ["scripted", "slsqp", "l-bfgs-b", "nelder-mead", "powell", "de", "de_vec"]
+METHODS = ["scripted", "slsqp", "l-bfgs-b", "nelder-mead", "powell", "de", "de_vec", "workarray"]
 
 
 def cases(tier, seed):
@@ -121,7 +121,7 @@ def _gen_spec(rng, V, mask, method, refusable=False):
     spec["samplers"] = [{"method": str(rng.choice(meths)), "shared": bool(rng.random() < 0.4)} for _ in range(ns)]
     if ns > 1:
         spec["smap"] = [int(t) for t in rng.integers(0, ns, size=V)]
-    m = {"scripted": "slsqp", "de": "differential_evolution", "de_vec": "differential_evolution"}.get(method, method)
+    m = {"scripted": "slsqp", "de": "differential_evolution", "de_vec": "differential_evolution", "workarray": "verif/workarray"}.get(method, method)
     spec["optimizer"] = {"method": m, "max_iterations": 3, "speculative": bool(rng.random() < 0.4), "split_evaluations": bool(rng.random() < 0.3),
                          "parallel": method == "de_vec"}
     if m == "differential_evolution":
